@@ -15,6 +15,7 @@ TABLE = {
  'M21': ['C09'], 'M26': ['C12'], 'M26b': ['C12'], 'M31': ['C15'], 'M32': ['C16'], 'M33': ['C17'], 'M34': ['C07'], 'M36': ['C18'], 'M38': ['C19'],
  'S01': ['C10'], 'S02': ['C01'], 'S03': ['C10'], 'S04': ['C05'], 'S05': ['C10'], 'S08': ['C19'], 'S11': ['C02'], 'S12': ['C06'],
  'T03': ['C08'], 'T04': ['C13'], 'T06': ['C14'], 'T07': ['C07'], 'T09': ['C10'],
+ 'U03': ['C06', 'C08'], 'U04': ['C08'], 'U05': ['C16'], 'U06': ['C09'], 'U07': ['C17'], 'U08': ['C07'], 'U10': ['C09'], 'U12': ['C06'], 'U13': ['C06'],
  # behaviour-preserving variants: every check must stay silent
  'T08': ['C13', 'C01'], 'T10': ['C03'],
 }
